@@ -346,3 +346,20 @@ Definition show_inlined (rp : repo) (top : string) : string :=
         end).
 Definition show_inlined_valid (rp : repo) (top : string) : string :=
   match inline_first_use rp top with POk j => show_bool (valid_raw j) | _ => "inline-error" end.
+
+(** closed boolean checks used by the evaluated instances of props/C19.v *)
+Definition same_canon (a b : json) : bool :=
+  match to_canonical a, to_canonical b with POk x, POk y => String.eqb x y | _, _ => false end.
+
+Definition equiv_check (rp : repo) (top : string) (order names : list string) : bool :=
+  match lres_schema (load rp top), inline_first_use rp top, load_ordered rp order with
+  | Some (POk p), POk j, Some (POk po) =>
+      valid_raw j && list_eqb String.eqb (spec_names "" j) names && same_canon j p && same_canon j po
+  | _, _, _ => false
+  end.
+
+Definition missing_check (rp : repo) (top missing : string) : bool :=
+  match lres_schema (load rp top) with
+  | Some (PErrUnknown n _) => String.eqb n missing
+  | _ => false
+  end.
